@@ -19,6 +19,9 @@ them and nodes of the graphs may even use their outputs (producer located in no 
 Optionally ``"history"``: the initial orders are reached through public move operations instead
 of being constructed directly (see the section "histories" below).
 
+Optionally, per node, ``"plain": [[slot, name, kind], ...]``: attributes that hold NO graph and stand
+next to the node's graph attributes (see the section "other attributes" below).
+
 Every graph other than 0 is owned by exactly one attribute of exactly one node.  Specs are
 **lexically well scoped**: a node of graph H refers only to outputs of nodes (or inputs) of H or
 of graphs enclosing H.
@@ -146,13 +149,117 @@ ATTR_SHAPES = [
     [["branches", "GS", 2]],
     [["branches", "GS", 3]],
     [["body", "G", 1], ["branches", "GS", 2]],
+    [["branches", "GS", 2], ["body", "G", 1]],
+    [["body", "G", 1], ["then_branch", "G", 1], ["else_branch", "G", 1]],
+    [["then_branch", "G", 1], ["branches", "GS", 1], ["else_branch", "G", 1], ["extra", "G", 1]],
 ]
 
 
-def gen_structure(rng, n_nodes: int, depth_max: int, cyclic: bool) -> tuple[Spec, dict]:
+# ---------------------------------------------------------------------------------------------
+# other attributes: what a node carries NEXT TO its graph attributes
+# ---------------------------------------------------------------------------------------------
+# ``node["plain"] = [[slot, name, kind], ...]`` (key absent = none).  ``kind`` is a value attribute
+# ("INT", "FLOAT", "STRING", "INTS") or a REFERENCE attribute ("ref-<TYPE>": the value comes from an
+# attribute of the enclosing function; it holds nothing, also when its type is GRAPH / GRAPHS).
+# ``slot`` k places the attribute directly before the node's k-th graph attribute (k = number of graph
+# attributes: after all of them); attributes of one slot keep their list order.  The attribute ORDER
+# of a node is part of the structure: every construction gives the attributes in this order.
+# None of these attributes holds a graph, so none of them adds to or takes from the relation of the
+# statement.
+VALUE_KINDS = ("INT", "FLOAT", "STRING", "INTS")
+REF_KINDS = ("ref-INT", "ref-INT", "ref-FLOAT", "ref-STRING", "ref-INTS", "ref-TENSOR")
+GRAPH_REF_KINDS = ("ref-GRAPH", "ref-GRAPHS")
+PLAIN_NAMES = ("alpha", "axis", "mode", "perm", "num_scan_inputs", "value", "to",
+               "body", "then_branch", "else_branch", "branches", "extra")
+
+
+def attr_sequence(n: dict) -> list[list]:
+    """The attributes of a node in their order: ["plain", name, kind] | ["graph", name, kind, gids]."""
+    plain = n.get("plain", [])
+    na = len(n["attrs"])
+    out: list[list] = []
+    for k in range(na + 1):
+        out.extend(["plain", p[1], p[2]] for p in plain if min(max(p[0], 0), na) == k)
+        if k < na:
+            a = n["attrs"][k]
+            out.append(["graph", a[0], a[1], a[2]])
+    return out
+
+
+def attr_names(n: dict) -> list[str]:
+    return [a[0] for a in n["attrs"]] + [p[1] for p in n.get("plain", [])]
+
+
+def plain_tags(n: dict, for_signature: bool = False) -> set[str]:
+    """Where the other attributes of a node stand relative to its graph attributes:
+    {value|ref|graphref}@{alone|before-graph-attr|between-graph-attrs|after-graph-attr}.  ``for_signature``: a
+    reference attribute of a graph type is named by its type only (ref-GRAPH / ref-GRAPHS)."""
+    na = len(n["attrs"])
+    out = set()
+    for slot, _name, kind in n.get("plain", []):
+        if for_signature and kind in GRAPH_REF_KINDS:
+            out.add(kind)
+            continue
+        what = "graphref" if kind in GRAPH_REF_KINDS else "ref" if kind.startswith("ref-") else "value"
+        slot = min(max(slot, 0), na)
+        where = "alone" if not na else "before-graph-attr" if slot == 0 else "after-graph-attr" if slot == na else "between-graph-attrs"
+        out.add(f"{what}@{where}")
+    return out
+
+
+def gen_plain(rng, spec: Spec, graph_refs: bool = False) -> None:
+    """Give nodes of ``spec`` other attributes, in every position relative to their graph attributes.
+    ``graph_refs``: also reference attributes of type GRAPH / GRAPHS (at least one)."""
+    nodes = spec["nodes"]
+    p_cf = rng.choice([0.5, 0.8, 1.0])
+    p_other = rng.choice([0.0, 0.1, 0.3])
+
+    def one(n: dict, kind: str | None = None) -> None:
+        na = len(n["attrs"])
+        free = [x for x in PLAIN_NAMES if x not in attr_names(n)]
+        if not free:
+            return
+        if kind is None:
+            kind = rng.choice(REF_KINDS) if rng.random() < 0.55 else rng.choice(VALUE_KINDS)
+        x = rng.random()
+        slot = 0 if x < 0.45 else na if x < 0.7 else rng.randrange(na + 1)
+        n.setdefault("plain", []).append([slot, rng.choice(free), kind])
+
+    for n in nodes:
+        na = len(n["attrs"])
+        if rng.random() >= (p_cf if na else p_other):
+            continue
+        for _ in range(rng.choice([1, 1, 2, 2, 3]) if na else rng.choice([1, 1, 2])):
+            one(n)
+    if graph_refs and nodes:
+        cf = [n for n in nodes if n["attrs"]]
+        for _ in range(rng.choice([1, 1, 2])):
+            n = rng.choice(cf) if cf and rng.random() < 0.5 else rng.choice(nodes)
+            one(n, rng.choice(GRAPH_REF_KINDS))
+
+
+def without_plain(spec: Spec) -> Spec:
+    return dict(spec, nodes=[{k: v for k, v in n.items() if k != "plain"} for n in spec["nodes"]])
+
+
+def drop_plain(spec: Spec, nid: int, k: int) -> Spec:
+    nodes = list(spec["nodes"])
+    rest = nodes[nid]["plain"][:k] + nodes[nid]["plain"][k + 1:]
+    nodes[nid] = {key: v for key, v in nodes[nid].items() if key != "plain"}
+    if rest:
+        nodes[nid]["plain"] = rest
+    return dict(spec, nodes=nodes)
+
+
+def has_plain(spec: Spec) -> bool:
+    return any(n.get("plain") for n in spec["nodes"])
+
+
+def gen_structure(rng, n_nodes: int, depth_max: int, cyclic: bool, plain: str = "none") -> tuple[Spec, dict]:
     """Random well-scoped nested structure.  Returns the spec (graph orders = a hidden valid order
     when acyclic) and ``meta`` with feature counts.  ``cyclic`` adds edges against the hidden
-    order (which may or may not close a cycle; the oracle decides)."""
+    order (which may or may not close a cycle; the oracle decides).  ``plain``: "none" | "some" |
+    "graph-refs" - other attributes next to the graph attributes (gen_plain)."""
     graphs: list[dict] = [{"nin": rng.choice([0, 1, 2]), "order": []}]
     depth = [0]
     nodes: list[dict] = []
@@ -302,6 +409,8 @@ def gen_structure(rng, n_nodes: int, depth_max: int, cyclic: bool) -> tuple[Spec
                 nodes[j]["inputs"].insert(rng.randrange(len(nodes[j]["inputs"]) + 1), ["d", dd, rng.randrange(d["nout"])])
                 meta["uses_of_detached_outputs"] += 1
     spec["detached"] = detached
+    if plain != "none":
+        gen_plain(rng, spec, graph_refs=plain == "graph-refs")
     meta["max_depth"] = max(depth)
     meta["multi_output_nodes"] = sum(1 for n in nodes if n["nout"] > 1)
     meta["cf_nodes"] = sum(1 for n in nodes if n["attrs"])
@@ -434,6 +543,11 @@ def exhaustive_spec(n: int, mask: int, perm: int, shape: str) -> Spec:
                 nodes[j]["attrs"].append(["body", "G", [len(graphs) - 1]])
                 nodes.append({"g": len(graphs) - 1, "nout": 1,
                               "inputs": [["n", i, 0] for i in preds[j]], "attrs": []})
+                if shape == "nested_use" and (perm + j) % 4:
+                    # other attributes around the body (pattern varies with the permutation, so every
+                    # digraph meets every pattern): reference before / value after / both
+                    nodes[j]["plain"] = [[[0, "num_scan_inputs", "ref-INT"]], [[1, "axis", "INT"]],
+                                         [[0, "mode", "STRING"], [0, "alpha", "ref-FLOAT"], [1, "axis", "INT"]]][(perm + j) % 4 - 1]
                 if shape == "nested_use_dangling":
                     # the capturing node's only consumer is in no graph (removed / never added)
                     detached.append({"scope": len(graphs) - 1, "how": "removed" if j % 2 else "never", "pos": 1,
@@ -514,6 +628,10 @@ def remove_nodes(spec: Spec, doomed: set[int], sub: int | None = None,
               "attrs": [[a[0], a[1], [gmap[x] for x in a[2] if x in gmap]] for a in n["attrs"]
                         if any(x in gmap for x in a[2])]}
              for nid, n in enumerate(spec["nodes"]) if nid in nmap]
+    for new_n, n in zip(nodes, (n for nid, n in enumerate(spec["nodes"]) if nid in nmap)):
+        if n.get("plain"):  # other attributes stay, before the same (surviving) graph attribute
+            kept = [any(x in gmap for x in a[2]) for a in n["attrs"]]
+            new_n["plain"] = [[sum(kept[:min(max(p[0], 0), len(kept))]), p[1], p[2]] for p in n["plain"]]
     detached = [dict(d, scope=gmap[d["scope"]], inputs=[fix(r) for r in d["inputs"]])
                 for did, d in enumerate(spec.get("detached", [])) if did in dmap]
     new = {"graphs": graphs, "nodes": nodes, "detached": detached}
@@ -578,6 +696,7 @@ def drop_input(spec: Spec, nid: int, slot: int, to_none: bool, detached: bool = 
 def spec_size(spec: Spec) -> int:
     every = spec["nodes"] + spec.get("detached", [])
     size = 10 * len(every) + sum(len(n["inputs"]) + sum(1 for r in n["inputs"] if r is not None) for n in every)
+    size += 2 * sum(len(n.get("plain", [])) for n in spec["nodes"])
     if "history" in spec:
         h = spec["history"]
         size += 2 + sum(4 + len(m[3]) for m in h["moves"])
@@ -602,8 +721,10 @@ def describe(spec: Spec) -> str:
         items = []
         for nid in gr["order"]:
             n = spec["nodes"][nid]
-            at = "".join(f" {a[0]}={'g' + str(a[2][0]) if a[1] == 'G' else ['g' + str(x) for x in a[2]]}"
-                         for a in n["attrs"])
+            at = "".join(
+                (f" {a[1]}={'g' + str(a[3][0]) if a[2] == 'G' else ['g' + str(x) for x in a[3]]}" if a[0] == "graph" else
+                 f" {a[1]}=@ref:{a[2][4:]}" if a[2].startswith("ref-") else f" {a[1]}=<{a[2]}>")
+                for a in attr_sequence(n))
             items.append(f"n{nid}({', '.join(ref(r) for r in n['inputs'])}){at}")
         lines.append(f"g{gid} [{where}]: " + "; ".join(items))
     for did, d in enumerate(spec.get("detached", [])):
@@ -1172,7 +1293,7 @@ def _gen_edit(rng, spec: Spec, u: int, avoid_graph: int | None) -> dict | None:
         if not cands:
             return None
         j = rng.choice(cands)
-        free = [nm for nm in ("body", "then_branch", "else_branch", "branches", "extra") if nm not in [a[0] for a in nodes[j]["attrs"]]]
+        free = [nm for nm in ("body", "then_branch", "else_branch", "branches", "extra") if nm not in attr_names(nodes[j])]
         if not free:
             return None
         kind = rng.choice(["G", "G", "GS"])
@@ -1389,7 +1510,7 @@ def edit_applicable(spec: Spec, e: dict) -> bool:
         if op == "rauw":
             return e["by"] is not None and e["value"] is not None
         if op == "add_attr":
-            return e["name"] not in [a[0] for a in nodes[e["node"]]["attrs"]] and bool(e["graphs"])
+            return e["name"] not in attr_names(nodes[e["node"]]) and bool(e["graphs"])
         if op == "add_node":
             return 0 <= e["g"] < len(graphs) and (e["where"][0] == "append" or e["where"][1] in graphs[e["g"]]["order"])
         if op == "move":
